@@ -11,12 +11,26 @@
  *   prefix  : the receiver must be dead (fatal alert / error) right after the first message that
  *             no legal sequence of the negotiated mode admits at that position;
  *   complete: if the deviant sequence differs from the honest one, the receiver never completes.
- * DTLS may ignore duplicates and out-of-order messages, so only the completion clause is judged. */
+ * DTLS may ignore duplicates and out-of-order messages, so only the completion clause is judged.
+ *
+ * What a mode NEGOTIATED is read from the server's hellos on the wire of the attacked connection (session_ticket extension echoed or not,
+ * pre_shared_key selected or not, early_data in EncryptedExtensions), never from what the client offered: the grid holds modes in which the
+ * client offers something the server declines (RFC 5077 extension without echo - a well-formed NewSessionTicket is then a foreign message;
+ * an external TLS 1.3 PSK unknown to the server or a ticket sealed under rotated keys, with client authentication required - the client's
+ * Certificate / CertificateVerify stay mandatory), HelloRetryRequest handshakes and accepted 0-RTT (EndOfEarlyData under the early traffic
+ * key).  Besides the single-step deviations, blocks of 2 .. n-1 adjacent messages are skipped (Certificate + CertificateVerify, ...). */
 #include "mx_surgeon.h"
 
-typedef struct { const char *name; int ver; uint16_t suite; int clientAuth, resumed, ticket; } hmode_t;
+/* offer: what the client offers that the server does NOT take up (the negotiated mode is read from the ServerHello on the wire, never from this configuration):
+ *   OF_TKT_NOECHO     TLS <= 1.2 client sends the session_ticket extension, the server has no ticket keys (no echo, no NewSessionTicket in the honest flight);
+ *   OF_PSK13_UNKNOWN  TLS 1.3 client offers an external PSK the server has never seen;
+ *   OF_TKT13_STALE    TLS 1.3 client offers a ticket of the priming handshake, the server's ticket keys were rotated since.
+ * hrr: the client's only key share is for a group the server lacks (HelloRetryRequest handshake); early: accepted 0-RTT data (EndOfEarlyData in the client's flight). */
+enum { OF_NONE = 0, OF_TKT_NOECHO, OF_PSK13_UNKNOWN, OF_TKT13_STALE };
+typedef struct { const char *name; int ver; uint16_t suite; int clientAuth, resumed, ticket; int offer, hrr, early; int quick; /* roles attacked in the quick tier: bit 0 client, bit 1 server */ int lightfrag; /* quick: fragmented framing for a third of the cases only */ } hmode_t;
 static hmode_t modes[64]; static int nmodes;
-static void addm(const char *n, int v, uint16_t s, int ca, int res, int tk) { modes[nmodes++] = (hmode_t) { n, v, s, ca, res, tk }; }
+static hmode_t *addm(const char *n, int v, uint16_t s, int ca, int res, int tk) { modes[nmodes] = (hmode_t) { n, v, s, ca, res, tk, 0, 0, 0, 3, 0 }; return &modes[nmodes++]; }
+static hmode_t *addx(const char *n, int v, uint16_t s, int ca, int res, int tk, int offer, int quick) { hmode_t *m = addm(n, v, s, ca, res, tk); m->offer = offer; m->quick = quick; m->lightfrag = 1; return m; }
 static void build_modes(void)
 {
     addm("rsa", MX_TLS12, 0x003c, 0, 0, 0); addm("rsa-clientauth", MX_TLS12, 0x009c, 1, 0, 0);
@@ -25,6 +39,68 @@ static void build_modes(void)
     addm("ecdhe-rsa", MX_TLS11, 0xc014, 0, 0, 0); addm("rsa-clientauth", MX_TLS11, 0x0035, 1, 0, 0);
     addm("aes128gcm", MX_TLS13, 0x1301, 0, 0, 0); addm("chacha-clientauth", MX_TLS13, 0x1303, 1, 0, 0); addm("aes256gcm-resumed", MX_TLS13, 0x1302, 0, 1, 0);
     addm("ecdhe-rsa", MX_DTLS12, 0xc027, 0, 0, 0); addm("rsa-clientauth", MX_DTLS10, 0x002f, 1, 0, 0); addm("psk-resumed", MX_DTLS12, 0x00ae, 0, 1, 0);
+    /* the client offers, the server declines (quick tier: the role whose state machine the unanswered offer could confuse) */
+    addx("ecdhe-rsa-ticket-offered-not-echoed", MX_TLS12, 0xc02f, 0, 0, 1, OF_TKT_NOECHO, 1);
+    addx("rsa-resumed-ticket-offered-not-echoed", MX_TLS12, 0x003c, 0, 1, 1, OF_TKT_NOECHO, 1);
+    addx("rsa-ticket-offered-not-echoed", MX_TLS11, 0x002f, 0, 0, 1, OF_TKT_NOECHO, 0);
+    addx("aes128gcm-clientauth-psk-declined", MX_TLS13, 0x1301, 1, 0, 0, OF_PSK13_UNKNOWN, 2);
+    addx("chacha-clientauth-stale-ticket", MX_TLS13, 0x1303, 1, 1, 0, OF_TKT13_STALE, 2);
+    addx("aes128gcm-psk-declined", MX_TLS13, 0x1301, 0, 0, 0, OF_PSK13_UNKNOWN, 0);
+    /* TLS 1.3 flavours with extra messages: HelloRetryRequest + second ClientHello, accepted 0-RTT data + EndOfEarlyData */
+    addx("aes128gcm-hrr", MX_TLS13, 0x1301, 0, 0, 0, OF_NONE, 3)->hrr = 1;
+    addx("aes128gcm-clientauth-hrr", MX_TLS13, 0x1301, 1, 0, 0, OF_NONE, 0)->hrr = 1;
+    addx("aes128gcm-resumed-early", MX_TLS13, 0x1301, 0, 1, 0, OF_NONE, 3)->early = 1;
+}
+
+/* key sets of the declined-offer modes */
+static sslKeys_t *k_srv_notk, *k_srv_rot, *k_cli_psk13, *k_cli_psk13_noid;
+static void own_keys_load(void)
+{
+    static const unsigned char tn[16] = "rotated-tkt-key", tk[32] = { 5, 5, 5 }, th[32] = { 6, 6, 6 }, psk[32] = { 0xc0, 0x6f, 1, 2, 3, 4, 5, 6, 7, 8 }, pskid[] = "c06-psk-unknown-to-the-server";
+    int rc = 0;
+    rc |= matrixSslNewKeys(&k_srv_notk, NULL) < 0; rc |= matrixSslLoadKeys(k_srv_notk, MX_TK "RSA/2048_RSA.pem", MX_TK "RSA/2048_RSA_KEY.pem", NULL, mx_ca_both, NULL) < 0;      /* no session-ticket keys */
+    rc |= matrixSslNewKeys(&k_srv_rot, NULL) < 0; rc |= matrixSslLoadKeys(k_srv_rot, MX_TK "RSA/2048_RSA.pem", MX_TK "RSA/2048_RSA_KEY.pem", NULL, mx_ca_both, NULL) < 0;
+    rc |= matrixSslLoadSessionTicketKeys(k_srv_rot, tn, tk, 32, th, 32) < 0;
+    rc |= matrixSslNewKeys(&k_cli_psk13, NULL) < 0; rc |= matrixSslLoadKeys(k_cli_psk13, MX_TK "RSA/2048_RSA.pem", MX_TK "RSA/2048_RSA_KEY.pem", NULL, mx_ca_both, NULL) < 0;
+    rc |= matrixSslLoadTls13Psk(k_cli_psk13, psk, 32, pskid, sizeof(pskid) - 1, NULL) < 0;
+    rc |= matrixSslNewKeys(&k_cli_psk13_noid, NULL) < 0; rc |= matrixSslLoadKeys(k_cli_psk13_noid, NULL, NULL, NULL, mx_ca_both, NULL) < 0;
+    rc |= matrixSslLoadTls13Psk(k_cli_psk13_noid, psk, 32, pskid, sizeof(pskid) - 1, NULL) < 0;
+    if (rc) { fprintf(stderr, "HARNESS: c06 key sets failed to load\n"); exit(2); }
+}
+static void own_keys_free(void) { matrixSslDeleteKeys(k_srv_notk); matrixSslDeleteKeys(k_srv_rot); matrixSslDeleteKeys(k_cli_psk13); matrixSslDeleteKeys(k_cli_psk13_noid); }
+/* configuration of the priming (prime = 1) and of the attacked connection of a mode */
+static mx_cfg mode_cfg(const hmode_t *m, int prime)
+{
+    mx_cfg c = { .ver = m->ver, .suite = m->suite, .clientAuth = m->clientAuth, .useTicket = m->ticket };
+    if (m->offer == OF_TKT_NOECHO) c.skeys = k_srv_notk;
+    if (m->offer == OF_PSK13_UNKNOWN) c.ckeys = m->clientAuth ? k_cli_psk13 : k_cli_psk13_noid;
+    if (m->offer == OF_TKT13_STALE && !prime) c.skeys = k_srv_rot;
+    if (m->early) c.earlyData = 16384;
+    return c;
+}
+static int expect_resumed(const hmode_t *m) { return m->resumed && m->offer != OF_TKT13_STALE; }
+/* mx_conn_open + key-exchange groups for HelloRetryRequest modes (client: share for x25519 only, also supports secp256r1; server: secp256r1 alone) + early data */
+static int mode_open(mx_conn *k, const hmode_t *m, int prime, sslSessionId_t *sid)
+{
+    mx_cfg c = mode_cfg(m, prime); int rc;
+    if (!m->hrr) rc = mx_conn_open(k, &c, sid);
+    else {
+        memset(k, 0, sizeof *k); k->cfg = c; k->dtls = 0; uint16_t gs[1] = { 23 }, gc[2] = { 29, 23 }; psCipher16_t cs[1] = { c.suite };
+        for (int role = MX_SERVER; role >= MX_CLIENT; role--) {
+            sslSessOpts_t o; mx_opts(&o, &c, role); mx_ep *e = role == MX_SERVER ? &k->s : &k->c;
+            if ((role == MX_SERVER ? matrixSslSessOptsSetKeyExGroups(&o, gs, 1, 1) : matrixSslSessOptsSetKeyExGroups(&o, gc, 2, 1)) < 0) return -3;
+            memset(e, 0, sizeof *e); e->role = role; e->ver = c.ver; e->id = role == MX_SERVER ? 1 : 0; e->name = role == MX_SERVER ? "S" : "C"; mx_actor = e->id; e->sid = role == MX_CLIENT ? sid : NULL; MX_ENTER();
+            rc = role == MX_SERVER ? matrixSslNewServerSession(&e->ssl, mx_pick_skeys(&c), c.clientAuth ? mx_cert_cb_accept : NULL, &o)
+                                   : matrixSslNewClientSession(&e->ssl, mx_pick_ckeys(&c), sid, cs, 1, mx_cert_cb_accept, NULL, NULL, NULL, &o);
+            MX_LEAVE(); e->wantTake = 1; if (rc < 0) return -1;
+        }
+        rc = 0;
+    }
+    if (rc == 0 && m->early && !prime) {   /* 0-RTT: one early record right behind the ClientHello */
+        unsigned char p[128]; mx_payload(p, 100, 0x0c06, 0, 7);
+        if (matrixSslGetMaxEarlyData(k->c.ssl) <= 0 || mx_send(&k->c, p, 100) <= 0) vf_incon("client of %s is not early-data capable", m->name);
+    }
+    return rc;
 }
 
 /* ---- units: one handshake message (or CCS / opaque encrypted record) ---- */
@@ -32,21 +108,46 @@ enum { U_HS = 0, U_CCS, U_OPAQUE };
 typedef struct { int kind, type; unsigned char *body; int len; int prot; /* TLS1.3: was protected */ int origin; } unit_t;
 #define T_CCS 1000
 #define T_ENCFIN 1020
+#define T_HRR 1002       /* ServerHello carrying the HelloRetryRequest random */
+#define T_EARLYAPP 1023  /* a 0-RTT application data record (kept as the sender sealed it) */
 static unit_t pool[64]; static int npool;             /* every handshake message seen in the honest run (both directions) */
 static unit_t tr[64]; static int ntr;                  /* this connection's handshake messages before the attacked flight, in order (TLS <= 1.2, before CCS) */
 static const unit_t *pool_get(int type) { for (int i = 0; i < npool; i++) if (pool[i].type == type) return &pool[i]; return NULL; }
 
 static int kx_of(const hmode_t *m) { const mx_suite_t *s = mx_suite_by_id(m->suite); if (s->tls13) return 3; if (s->auth == MX_AUTH_PSK) return 2; return (m->suite & 0xff00) == 0xc000 ? 1 : 0; }   /* 0 RSA, 1 ECDHE, 2 PSK, 3 TLS1.3 */
 
-/* ---- reference grammar: returns next state or -1 if `type` is not admissible in state st ---- */
-typedef struct { const hmode_t *m; int role; int resumedActually; int clientSentCert; int ticketNegotiated; } gctx_t;
+/* ---- what the hellos on the wire negotiated ---- */
+static const unsigned char hrr_random[32] = { 0xCF, 0x21, 0xAD, 0x74, 0xE5, 0x9A, 0x61, 0x11, 0xBE, 0x1D, 0x8C, 0x02, 0x1E, 0x65, 0xB8, 0x91, 0xC2, 0xA2, 0x11, 0x16, 0x7A, 0xBB, 0x8C, 0x5E, 0x07, 0x9E, 0x09, 0xE2, 0xC8, 0xA8, 0x33, 0x9C };
+static int hs_type_of(const unsigned char *b, int len) { return (len >= 4 + 34 && b[0] == 2 && !memcmp(b + 6, hrr_random, 32)) ? T_HRR : b[0]; }
+/* extension `ext` present in a ServerHello (message with its hh-byte handshake header)? */
+static int sh_has_ext(const unsigned char *b, int len, int hh, int ext)
+{
+    int o = hh + 2 + 32; if (o + 1 > len) return 0; o += 1 + b[o]; o += 3; if (o + 2 > len) return 0;
+    int el = (b[o] << 8) | b[o + 1]; o += 2; int end = o + el; if (end > len) end = len;
+    while (o + 4 <= end) { int t = (b[o] << 8) | b[o + 1], l = (b[o + 2] << 8) | b[o + 3]; if (t == ext) return 1; o += 4 + l; }
+    return 0;
+}
+static int ee_has_ext(const unsigned char *b, int len, int ext)
+{
+    int o = 4; if (o + 2 > len) return 0; int el = (b[o] << 8) | b[o + 1]; o += 2; int end = o + el; if (end > len) end = len;
+    while (o + 4 <= end) { int t = (b[o] << 8) | b[o + 1], l = (b[o + 2] << 8) | b[o + 3]; if (t == ext) return 1; o += 4 + l; }
+    return 0;
+}
+
+/* ---- reference grammar: returns next state or -1 if `type` is not admissible in state st ----
+ * resumedActually (TLS 1.3: the ServerHello carries pre_shared_key; TLS <= 1.2: the honest run resumed), ticketNegotiated (the ServerHello
+ * carries the session_ticket extension) and earlyAccepted (EncryptedExtensions carries early_data) are read from the server's messages on
+ * the wire of the attacked connection: what the client merely OFFERED (a PSK the server declined, an unanswered session_ticket extension)
+ * changes nothing in the legal sequences. */
+typedef struct { const hmode_t *m; int role; int resumedActually; int clientSentCert; int ticketNegotiated; int earlyAccepted; } gctx_t;
 static int g_next(const gctx_t *g, int st, int type)
 {
     const hmode_t *m = g->m; int kx = kx_of(m); int certSuite = kx == 0 || kx == 1;
     if (m->ver == MX_TLS13) {
         if (g->role == MX_CLIENT) {       /* client receives: SH EE [CR] Cert CV Fin ; PSK: SH EE Fin */
             switch (st) {
-            case 0: return type == 2 ? 1 : -1;
+            case 0: if (type == T_HRR) return 10; return type == 2 ? 1 : -1;
+            case 10: return type == 2 ? 1 : -1;                                   /* one HelloRetryRequest at most */
             case 1: return type == 8 ? 2 : -1;
             case 2: if (g->resumedActually) return type == 20 ? 9 : -1; if (type == 13) return 3; return type == 11 ? 4 : -1;
             case 3: return type == 11 ? 4 : -1;
@@ -55,8 +156,11 @@ static int g_next(const gctx_t *g, int st, int type)
             default: return -1; }
         } else {                          /* server receives: CH [Cert [CV]] Fin */
             switch (st) {
-            case 0: return type == 1 ? 1 : -1;
-            case 1: if (m->clientAuth && !g->resumedActually) return type == 11 ? 2 : -1; return type == 20 ? 9 : -1;
+            case 0: return type == 1 ? (m->hrr ? 10 : 1) : -1;                    /* m->hrr is verified against the server's answer in run_mode */
+            case 10: return type == 1 ? 1 : -1;
+            case 1: if (g->earlyAccepted) { if (type == T_EARLYAPP) return 1; return type == 5 ? 4 : -1; }      /* accepted 0-RTT (PSK, hence no certificate): data*, EndOfEarlyData, Finished */
+                    if (m->clientAuth && !g->resumedActually) return type == 11 ? 2 : -1; return type == 20 ? 9 : -1;
+            case 4: return type == 20 ? 9 : -1;
             case 2: if (g->clientSentCert) return type == 15 ? 3 : -1; return type == 20 ? 9 : -1;
             case 3: return type == 20 ? 9 : -1;
             default: return -1; }
@@ -90,18 +194,21 @@ static int g_next(const gctx_t *g, int st, int type)
 /* ---- splitting a pending flight into units ---- */
 static int split_flight(mx_conn *k, mx_ep *T, mx_ep *P, const unsigned char *b, int n, unit_t *u, int maxu)
 {
-    int off = 0, nu = 0, dtls = k->dtls; mx_rec r; int afterCCS = 0; unsigned long long rseq = 0; int hh = dtls ? 12 : 4;
+    int off = 0, nu = 0, dtls = k->dtls; mx_rec r; int afterCCS = 0; unsigned long long rseq = 0, eseq = 0; int hh = dtls ? 12 : 4;
+    /* records under the client's early traffic key continue the numbering of those the receiver already consumed under that key */
+    if (k->cfg.ver == MX_TLS13 && (T->ssl->flags & SSL_FLAGS_READ_SECURE) && !memcmp(T->ssl->sec.tls13ReadIv, P->ssl->sec.tls13EarlyDataIv, 12)) eseq = mx_seq8(T->ssl->sec.remSeq);
     static unsigned char plain[70000];
     while (mx_rec_at(b, n, off, dtls, &r) && nu < maxu) {
         const unsigned char *p = b + off + r.hdr; int tot = r.hdr + r.len;
         if (k->cfg.ver == MX_TLS13) {
             if (r.type == 20) { off += tot; continue; }                                   /* compatibility CCS: dropped by the receiver, not part of the sequence */
             if (r.type == 22) {   /* plaintext ClientHello / ServerHello / HRR */
-                int o = 0; while (o + 4 <= r.len && nu < maxu) { int l = (p[o + 1] << 16) | (p[o + 2] << 8) | p[o + 3]; u[nu] = (unit_t) { U_HS, p[o], malloc(4 + l), 4 + l, 0, 0 }; memcpy(u[nu].body, p + o, 4 + l); nu++; o += 4 + l; }
+                int o = 0; while (o + 4 <= r.len && nu < maxu) { int l = (p[o + 1] << 16) | (p[o + 2] << 8) | p[o + 3]; if (o + 4 + l > r.len) break; u[nu] = (unit_t) { U_HS, hs_type_of(p + o, 4 + l), malloc(4 + l), 4 + l, 0, 0 }; memcpy(u[nu].body, p + o, 4 + l); nu++; o += 4 + l; }
             } else if (r.type == 23) {
-                int l = mx13_open(k->cfg.suite, P->ssl->sec.tls13HsWriteKey, P->ssl->sec.tls13HsWriteIv, rseq++, b + off, tot, plain);
-                if (l < 0) return -1;
-                while (l > 0 && plain[l - 1] == 0) l--; int it = plain[l - 1]; l--;
+                int early = 0, l = mx13_open(k->cfg.suite, P->ssl->sec.tls13HsWriteKey, P->ssl->sec.tls13HsWriteIv, rseq, b + off, tot, plain);
+                if (l < 0) { l = mx13_open(k->cfg.suite, P->ssl->sec.tls13EarlyDataKey, P->ssl->sec.tls13EarlyDataIv, eseq, b + off, tot, plain); if (l < 0) return -1; early = 1; eseq++; } else rseq++;
+                while (l > 0 && plain[l - 1] == 0) l--; if (l <= 0) return -1; int it = plain[l - 1]; l--;
+                if (it == 23 && early) { u[nu] = (unit_t) { U_OPAQUE, T_EARLYAPP, malloc(tot), tot, 2, 0 }; memcpy(u[nu].body, b + off, tot); nu++; off += tot; continue; }
                 if (it != 22) { off += tot; continue; }
                 int o = 0; while (o + 4 <= l && nu < maxu) { int ml = (plain[o + 1] << 16) | (plain[o + 2] << 8) | plain[o + 3]; u[nu] = (unit_t) { U_HS, plain[o], malloc(4 + ml), 4 + ml, 1, 0 }; memcpy(u[nu].body, plain + o, 4 + ml); nu++; o += 4 + ml; }
             }
@@ -122,13 +229,14 @@ static int split_flight(mx_conn *k, mx_ep *T, mx_ep *P, const unsigned char *b, 
 
 /* ---- feeding one unit as its own record ---- */
 static unsigned long long feed_seq; static unsigned long long dtls_rsn_next;
+static int feed_flight;    /* number of the attacked flight (the record version 3.1 is used for a first ClientHello only) */
 static int feed_frag;      /* framing of the deviant flight: 0 = one handshake message per record, 1 = every handshake message split over two records */
 static int feed_unit_whole(mx_conn *k, mx_ep *T, mx_ep *P, const unit_t *u);
 static int feed_unit(mx_conn *k, mx_ep *T, mx_ep *P, const unit_t *u)
 {
     /* record-layer fragmentation (not DTLS: its fragments carry their own headers; not TLS <= 1.2 protected records) */
     /* TLS 1.3 hellos stay whole: the library decides between its two record decoders from a complete hello (a refused fragmented hello is no concern of this property) */
-    if (feed_frag && u->kind == U_HS && !k->dtls && u->len >= 12 && !(k->cfg.ver == MX_TLS13 && (u->type == 1 || u->type == 2)) && (k->cfg.ver == MX_TLS13 || !(T->ssl->flags & SSL_FLAGS_READ_SECURE))) {
+    if (feed_frag && u->kind == U_HS && !k->dtls && u->len >= 12 && !(k->cfg.ver == MX_TLS13 && (u->type == 1 || u->type == 2 || u->type == T_HRR)) && (k->cfg.ver == MX_TLS13 || !(T->ssl->flags & SSL_FLAGS_READ_SECURE))) {
         int cut = 5 + (u->len - 5) / 2;     /* inside the body (a split inside the 4-byte handshake header is refused by the TLS 1.3 decoder: a limitation, not this property's subject) */
         unit_t a = *u, b = *u; a.len = cut; b.body = u->body + cut; b.len = u->len - cut;
         int rc = feed_unit_whole(k, T, P, &a); if (T->dead) return rc;
@@ -142,10 +250,12 @@ static int feed_unit_whole(mx_conn *k, mx_ep *T, mx_ep *P, const unit_t *u)
     if (u->kind != U_HS) { memcpy(rec, u->body, u->len); n = u->len; }
     else if (k->cfg.ver == MX_TLS13 && (T->ssl->flags & SSL_FLAGS_READ_SECURE)) {
         static unsigned char inner[70000]; memcpy(inner, u->body, u->len); inner[u->len] = 22;
-        n = mx13_seal(k->cfg.suite, P->ssl->sec.tls13HsWriteKey, P->ssl->sec.tls13HsWriteIv, mx_seq8(T->ssl->sec.remSeq), inner, u->len + 1, 23, rec);
+        /* sealed under the sender's key the receiver currently reads with: the client's early traffic key up to EndOfEarlyData, else the sender's handshake key */
+        int early = !memcmp(T->ssl->sec.tls13ReadIv, P->ssl->sec.tls13EarlyDataIv, 12);
+        n = mx13_seal(k->cfg.suite, early ? P->ssl->sec.tls13EarlyDataKey : P->ssl->sec.tls13HsWriteKey, early ? P->ssl->sec.tls13EarlyDataIv : P->ssl->sec.tls13HsWriteIv, mx_seq8(T->ssl->sec.remSeq), inner, u->len + 1, 23, rec);
     } else {
         int maj = dtls ? 254 : 3, min = k->cfg.ver == MX_TLS11 ? 2 : k->cfg.ver == MX_DTLS10 ? 255 : dtls ? 253 : 3;
-        if (k->cfg.ver == MX_TLS13 && u->type == 1) min = 1;
+        if (k->cfg.ver == MX_TLS13 && u->type == 1 && feed_flight == 0) min = 1;
         rec[0] = 22; rec[1] = maj; rec[2] = min; int h = 5;
         if (dtls) { rec[3] = 0; rec[4] = 0; for (int i = 0; i < 6; i++) rec[5 + i] = (unsigned char) (dtls_rsn_next >> (8 * (5 - i))); dtls_rsn_next++; h = 13; }
         rec[h - 2] = u->len >> 8; rec[h - 1] = u->len; memcpy(rec + h, u->body, u->len); n = h + u->len;
@@ -156,17 +266,17 @@ static int feed_unit_whole(mx_conn *k, mx_ep *T, mx_ep *P, const unit_t *u)
 static int is_dead(mx_ep *T) { return T->dead || (T->ssl->flags & SSL_FLAGS_ERROR) || T->ssl->err != SSL_ALERT_NONE; }
 
 /* ---- deviations ---- */
-enum { DV_NONE = 0, DV_DELETE, DV_DUP, DV_SWAP, DV_INJECT, DV_CCS, DV_INJECT2 };
-static const char *dvname[] = { "legal-reframed", "delete", "duplicate", "swap-adjacent", "inject", "premature-ccs", "inject-twice" };
+enum { DV_NONE = 0, DV_DELETE, DV_DUP, DV_SWAP, DV_INJECT, DV_CCS, DV_INJECT2, DV_DELRUN /* `type` adjacent messages from pos on are skipped */ };
+static const char *dvname[] = { "legal-reframed", "delete", "duplicate", "swap-adjacent", "inject", "premature-ccs", "inject-twice", "delete-run" };
 typedef struct { int kind, pos, type; } devn_t;
 static const char *tname(int t)
 {
     switch (t) { case 0: return "HelloRequest"; case 1: return "ClientHello"; case 2: return "ServerHello"; case 3: return "HelloVerifyRequest"; case 4: return "NewSessionTicket"; case 5: return "EndOfEarlyData"; case 8: return "EncryptedExtensions";
     case 11: return "Certificate"; case 12: return "ServerKeyExchange"; case 13: return "CertificateRequest"; case 14: return "ServerHelloDone"; case 15: return "CertificateVerify"; case 16: return "ClientKeyExchange"; case 20: return "Finished";
-    case 22: return "CertificateStatus"; case 24: return "KeyUpdate"; case 99: return "unknown-99"; case T_CCS: return "ChangeCipherSpec"; case T_ENCFIN: return "Finished(protected)"; default: return "other"; }
+    case 22: return "CertificateStatus"; case 24: return "KeyUpdate"; case 99: return "unknown-99"; case T_HRR: return "HelloRetryRequest"; case T_EARLYAPP: return "EarlyApplicationData"; case T_CCS: return "ChangeCipherSpec"; case T_ENCFIN: return "Finished(protected)"; default: return "other"; }
 }
 
-typedef struct { mx_conn *k; const hmode_t *m; int role; int flightNo; int gstate0; devn_t dv; int resumedActually; int clientSentCert; int ticketNegotiated; int frag; } child_arg;
+typedef struct { mx_conn *k; const hmode_t *m; int role; int flightNo; int gstate0; devn_t dv; int resumedActually; int clientSentCert; int ticketNegotiated; int frag; int earlyAccepted; } child_arg;
 static char cur_desc[256];
 static void report(const child_arg *a, const char *clause, int type, const char *fmt, ...)
 {
@@ -179,7 +289,7 @@ static void child_run(void *a_)
 {
     child_arg *a = a_; mx_conn *k = a->k; mx_ep *T = a->role == MX_SERVER ? &k->s : &k->c, *P = a->role == MX_SERVER ? &k->c : &k->s; int d = a->role == MX_SERVER ? 0 : 1;
     unit_t u[24], dseq[32]; int nu, nd = 0;
-    vf_stat("cases", 1); feed_frag = a->frag; if (a->frag) vf_stat("cases_fragmented_framing", 1);
+    vf_stat("cases", 1); feed_frag = a->frag; feed_flight = a->flightNo; if (getenv("C06_PERMODE")) vf_statf(1, "n_%s_%.40s_%d", mx_vername[a->m->ver], a->m->name, a->role); if (a->frag) vf_stat("cases_fragmented_framing", 1);
     nu = split_flight(k, T, P, k->q[d] + k->qoff[d], k->qlen[d] - k->qoff[d], u, 24);
     if (nu <= 0) { vf_stat("flight_not_splittable", 1); return; }
     k->qoff[d] = k->qlen[d];
@@ -191,13 +301,17 @@ static void child_run(void *a_)
         if (dv->kind == DV_CCS) { static unsigned char ccs[16]; int h = k->dtls ? 13 : 5; memset(ccs, 0, sizeof ccs); ccs[0] = 20; ccs[1] = k->dtls ? 254 : 3; ccs[2] = k->cfg.ver == MX_TLS11 ? 2 : k->cfg.ver == MX_DTLS10 ? 255 : k->dtls ? 253 : 3; if (k->dtls) ccs[10] = 77; ccs[h - 1] = 1; ccs[h] = 1; inj = (unit_t) { U_CCS, T_CCS, ccs, h + 1, 0, 1 }; }
         else { const unit_t *src = pool_get(dv->type); static unsigned char empty[12]; memset(empty, 0, sizeof empty); empty[0] = (unsigned char) dv->type;
             static unsigned char pskske[6] = { 12, 0, 0, 2, 0, 0 };   /* ServerKeyExchange of a plain PSK suite with an empty identity hint (legal once, RFC 4279) */
+            /* a well-formed NewSessionTicket for modes whose honest run has none: RFC 5077 lifetime(4) ticket<0..2^16-1>; RFC 8446 lifetime(4) age_add(4) nonce<0..255> ticket<1..2^16-1> extensions<0..2^16-2> */
+            static unsigned char nst12[4 + 6 + 32] = { 4, 0, 0, 38, 0, 0, 0x0e, 0x10, 0, 32, 0xc0, 0x6e }, nst13[4 + 4 + 4 + 1 + 8 + 2 + 32 + 2] = { 4, 0, 0, 53, 0, 0, 0x0e, 0x10, 1, 2, 3, 4, 8, 1, 1, 1, 1, 1, 1, 1, 1, 0, 32, 0xc0, 0x6e };
             if (src) inj = *src; else if (dv->type == 12 && kx_of(a->m) == 2 && !k->dtls) inj = (unit_t) { U_HS, 12, pskske, 6, 0, 1 };
+            else if (dv->type == 4 && !k->dtls) inj = a->m->ver == MX_TLS13 ? (unit_t) { U_HS, 4, nst13, sizeof nst13, 0, 1 } : (unit_t) { U_HS, 4, nst12, sizeof nst12, 0, 1 };
             else inj = (unit_t) { U_HS, dv->type, empty, k->dtls ? 12 : 4, 0, 1 }; inj.origin = 1; }
     }
     for (int i = 0; i <= nu; i++) {
         if ((dv->kind == DV_INJECT || dv->kind == DV_CCS || dv->kind == DV_INJECT2) && dv->pos == i) { dseq[nd++] = inj; if (dv->kind == DV_INJECT2) dseq[nd++] = inj; }
         if (i == nu) break;
         if (dv->kind == DV_DELETE && dv->pos == i) continue;
+        if (dv->kind == DV_DELRUN && i >= dv->pos && i < dv->pos + dv->type) continue;
         if (dv->kind == DV_SWAP && dv->pos == i && i + 1 < nu) { dseq[nd++] = u[i + 1]; dseq[nd++] = u[i]; i++; continue; }
         dseq[nd++] = u[i];
         if (dv->kind == DV_DUP && dv->pos == i) dseq[nd++] = u[i];
@@ -205,8 +319,11 @@ static void child_run(void *a_)
     /* same as the honest sequence? (e.g. swap of two identical units) */
     int same = nd == nu; for (int i = 0; same && i < nu; i++) if (dseq[i].type != u[i].type || dseq[i].len != u[i].len || memcmp(dseq[i].body, u[i].body, u[i].len)) same = 0;
     /* reference grammar walk */
-    gctx_t g = { a->m, a->role, a->resumedActually, a->clientSentCert, a->ticketNegotiated }; int st = a->gstate0, illegalAt = -1;
-    for (int i = 0; i < nd; i++) { int ns = g_next(&g, st, dseq[i].type); if (ns < 0) { illegalAt = i; break; } st = ns; }
+    gctx_t g = { a->m, a->role, a->resumedActually, a->clientSentCert, a->ticketNegotiated, a->earlyAccepted }; int st = a->gstate0, illegalAt = -1;
+    for (int i = 0; i < nd; i++) {
+        /* the ServerHello the client takes as such says what was negotiated */
+        if (a->role == MX_CLIENT && dseq[i].type == 2 && dseq[i].kind == U_HS && !k->dtls && (st == 0 || st == 10)) { if (a->m->ver == MX_TLS13) g.resumedActually = sh_has_ext(dseq[i].body, dseq[i].len, 4, 41); else g.ticketNegotiated = sh_has_ext(dseq[i].body, dseq[i].len, 4, 35); }
+        int ns = g_next(&g, st, dseq[i].type); if (ns < 0) { illegalAt = i; break; } st = ns; }
     char seqs[400]; int so = 0; seqs[0] = 0; for (int i = 0; i < nd && so < 360; i++) so += snprintf(seqs + so, sizeof seqs - so, "%s%s%s", i ? "," : "", i == illegalAt ? "!" : "", tname(dseq[i].type));
     vf_distinct("%s|%s|%d|f%d|%s|%d|%d|fr%d", mx_vername[a->m->ver], a->m->name, a->role, a->flightNo, dvname[dv->kind], dv->pos, dv->type, a->frag);
     /* feed one message at a time */
@@ -236,6 +353,7 @@ static void child_run(void *a_)
         }
         feed_unit(k, T, P, &dseq[i]);
         int dead = is_dead(T);
+        if (vf_verbose) fprintf(stderr, "  fed %s (%d bytes): dead=%d lastrc=%d err=%d hsState=%d complete=%d\n", tname(dseq[i].type), dseq[i].len, dead, T->lastrc, T->ssl->err, T->ssl->hsState, matrixSslHandshakeIsComplete(T->ssl));
         if (i == illegalAt && !dead && !k->dtls) firstAcceptedIllegal = i;
         if (!dead && matrixSslHandshakeIsComplete(T->ssl) && !completedEarly) { completedEarly = 1; completedAt = i; }
         if (dead) break;
@@ -244,7 +362,7 @@ static void child_run(void *a_)
         /* The state machine let an illegal message through.  The statement is violated only if the handshake can then COMPLETE,
            which needs a sender whose own transcript contains the same deviant sequence: give the honest sender that transcript
            (feed the extra message into its running handshake hash through the library's own function) and see. */
-        vf_stat("lax_state_machine_observations", 1);
+        vf_stat("lax_state_machine_observations", 1); if (getenv("C06_LAXLOG")) { FILE *lf = fopen(getenv("C06_LAXLOG"), "a"); if (lf) { fprintf(lf, "LAX %s [%s]\n", cur_desc, seqs); fclose(lf); } }
         vf_statf(1, "lax_%s_%s_%s", mx_vername[a->m->ver], a->role ? "server" : "client", tname(dseq[firstAcceptedIllegal].type));
     }
     /* Transcript-consistent deviant sender (TLS <= 1.2 over TCP, before the sender's ChangeCipherSpec): a malicious peer's own
@@ -280,24 +398,32 @@ static void child_run(void *a_)
 }
 
 static long g_idx;
-static void at_flight(mx_conn *k, const hmode_t *m, int role, int flightNo, int gstate0, int resumedActually, int clientSentCert, int ticketNeg)
+/* Sharding: every shard that executes cases of a (mode, role) pair must first run that pair's honest and priming handshakes itself.  The
+   shards are therefore split into G groups, each pair belongs to one group, and the pair's cases are dealt round-robin within the group. */
+static int grp_n = 1, grp_of_shard, grp_rank, grp_size = 1;
+static void grp_init(void) { grp_n = (vf_nshards >= 8 && vf_nshards % 4 == 0) ? 4 : 1; grp_of_shard = vf_shard % grp_n; grp_rank = vf_shard / grp_n; grp_size = vf_nshards / grp_n; }
+static int grp_mine(long idx) { return grp_size <= 1 || (idx % grp_size) == grp_rank; }
+static void at_flight(mx_conn *k, const hmode_t *m, int role, int flightNo, int gstate0, int resumedActually, int clientSentCert, int ticketNeg, int earlyAccepted)
 {
     mx_ep *T = role == MX_SERVER ? &k->s : &k->c, *P = role == MX_SERVER ? &k->c : &k->s; int d = role == MX_SERVER ? 0 : 1;
     unit_t u[24]; int nu = split_flight(k, T, P, k->q[d] + k->qoff[d], k->qlen[d] - k->qoff[d], u, 24);
     if (nu <= 0) return;
-    static const int alphabet[] = { 0, 1, 2, 4, 5, 8, 11, 12, 13, 14, 15, 16, 20, 22, 24, 99 };
-    devn_t list[800]; int nl = 0;
+    int alphabet[20] = { 0, 1, 2, 4, 5, 8, 11, 12, 13, 14, 15, 16, 20, 22, 24, 99 }, nalpha = 16;
+    if (m->ver == MX_TLS13 && pool_get(T_HRR)) alphabet[nalpha++] = T_HRR;      /* only where the honest run supplies one */
+    devn_t list[900]; int nl = 0;
     list[nl++] = (devn_t) { DV_NONE, 0, 0 };
     if (k->dtls) { for (int i = 0; i < nu; i++) list[nl++] = (devn_t) { DV_DELETE, i, u[i].type }; goto run; }   /* duplicates, reordering and stray records may legally be ignored by DTLS */
     for (int i = 0; i < nu; i++) { list[nl++] = (devn_t) { DV_DELETE, i, u[i].type }; list[nl++] = (devn_t) { DV_DUP, i, u[i].type }; if (i + 1 < nu) list[nl++] = (devn_t) { DV_SWAP, i, u[i].type }; }
-    for (int i = 0; i <= nu; i++) { for (int t = 0; t < 16; t++) { list[nl++] = (devn_t) { DV_INJECT, i, alphabet[t] }; int a2 = alphabet[t]; if (nl < 790 && (vf_thorough || a2 == 4 || a2 == 12 || a2 == 13 || a2 == 22 || a2 == 8)) list[nl++] = (devn_t) { DV_INJECT2, i, a2 }; } if (m->ver != MX_TLS13) list[nl++] = (devn_t) { DV_CCS, i, T_CCS }; }
+    for (int i = 0; i <= nu; i++) { for (int t = 0; t < nalpha; t++) { list[nl++] = (devn_t) { DV_INJECT, i, alphabet[t] }; int a2 = alphabet[t]; if (nl < 890 && (vf_thorough || a2 == 4 || a2 == 12 || a2 == 13 || a2 == 22 || a2 == 8)) list[nl++] = (devn_t) { DV_INJECT2, i, a2 }; } if (m->ver != MX_TLS13) list[nl++] = (devn_t) { DV_CCS, i, T_CCS }; }
 run:
+    /* skipping a block of 2 .. nu-1 adjacent messages (e.g. Certificate + CertificateVerify, ClientKeyExchange + ChangeCipherSpec) */
+    for (int len = 2; len < nu; len++) for (int i = 0; i + len <= nu && nl < 900; i++) list[nl++] = (devn_t) { DV_DELRUN, i, len };
     for (int j = 0; j < nl; j++) {
         long idx = g_idx++;
-        if (!vf_mine(idx)) continue;
+        if (!grp_mine(idx)) continue;
         for (int fr = 0; fr < 2; fr++) {
-            if (fr && (k->dtls || !(m->ver == MX_TLS13 || vf_thorough || (j % 3) == 0))) continue;     /* fragmented framing: all TLS 1.3 cases, a third of the TLS <= 1.2 ones in quick */
-            child_arg a = { k, m, role, flightNo, gstate0, list[j], resumedActually, clientSentCert, ticketNeg, fr };
+            if (fr && (k->dtls || !((m->ver == MX_TLS13 && !m->lightfrag) || vf_thorough || (j % 3) == 0))) continue;     /* fragmented framing: all cases of the basic TLS 1.3 modes, a third of the others in quick */
+            child_arg a = { k, m, role, flightNo, gstate0, list[j], resumedActually, clientSentCert, ticketNeg, fr, earlyAccepted };
             snprintf(cur_desc, sizeof cur_desc, "mode=%s/%s role=%d flight=%d dev=%s pos=%d type=%d%s", mx_vername[m->ver], m->name, role, flightNo, dvname[list[j].kind], list[j].pos, list[j].type, fr ? " frag" : "");
             if (vf_case && strcmp(vf_case, cur_desc)) continue;
             if (idx % 503 == 0 && !fr) vf_sample("%s", cur_desc);
@@ -314,58 +440,84 @@ static void collect_pool(mx_conn *k)
         while (mx_rec_at(k->wire[d], k->wirelen[d], off, k->dtls, &r)) { const unsigned char *p = k->wire[d] + off + r.hdr;
             if (r.type == 20) ccs = 1;
             if (r.type == 22 && !ccs && !(k->dtls && r.epoch > 0)) { int o = 0; while (o + hh <= r.len && npool < 64) { int l = (p[o + 1] << 16) | (p[o + 2] << 8) | p[o + 3]; if (k->dtls) l = (p[o + 9] << 16) | (p[o + 10] << 8) | p[o + 11]; if (o + hh + l > r.len) break;
-                if (!pool_get(p[o])) { pool[npool] = (unit_t) { U_HS, p[o], malloc(hh + l), hh + l, 0, 1 }; memcpy(pool[npool].body, p + o, hh + l); npool++; } o += hh + l; } }
+                int ty = k->dtls ? p[o] : hs_type_of(p + o, hh + l);
+                if (!pool_get(ty)) { pool[npool] = (unit_t) { U_HS, ty, malloc(hh + l), hh + l, 0, 1 }; memcpy(pool[npool].body, p + o, hh + l); npool++; } o += hh + l; } }
             off += r.hdr + r.len; } }
+}
+
+/* the first ServerHello proper (not a HelloRetryRequest) the server of connection k has put on the wire so far; TLS only */
+static int wire_server_hello(mx_conn *k, const unsigned char **sh, int *len, int *sawHrr)
+{
+    int off = 0; mx_rec r; *sawHrr = 0;
+    while (mx_rec_at(k->wire[1], k->wirelen[1], off, 0, &r)) { const unsigned char *p = k->wire[1] + off + r.hdr;
+        if (r.type == 22) { int o = 0; while (o + 4 <= r.len) { int l = (p[o + 1] << 16) | (p[o + 2] << 8) | p[o + 3]; if (o + 4 + l > r.len) return 0; int ty = hs_type_of(p + o, 4 + l);
+            if (ty == T_HRR) *sawHrr = 1; else if (ty == 2) { *sh = p + o; *len = 4 + l; return 1; } else return 0; o += 4 + l; } }
+        else if (r.type != 20) return 0;
+        off += r.hdr + r.len; }
+    return 0;
 }
 
 static void run_mode(const hmode_t *m, int role)
 {
-    mx_cfg cfg = { .ver = m->ver, .suite = m->suite, .clientAuth = m->clientAuth, .useTicket = m->ticket }; sslSessionId_t *sid; matrixSslNewSessionId(&sid, NULL); mx_conn k;
+    sslSessionId_t *sid; matrixSslNewSessionId(&sid, NULL); mx_conn k;
     /* honest run first: message pool + what the mode really negotiated */
-    npool = 0; int resumedActually = 0, ticketNeg = 0;
-    for (int round = 0; round < (m->resumed ? 2 : 1); round++) { if (mx_conn_open(&k, &cfg, sid) != 0) { vf_incon("open failed"); return; } mx_conn_run(&k, NULL, NULL, 300);
-        if (!mx_conn_established(&k)) { vf_incon("honest handshake failed for %s/%s", mx_vername[m->ver], m->name); mx_conn_close(&k); return; }
+    npool = 0; int resumedActually = 0, ticketNeg = 0, earlyAccepted = m->early, honestOk = 1;
+    for (int round = 0; round < (m->resumed ? 2 : 1); round++) { int last = round == (m->resumed ? 1 : 0); if (mode_open(&k, m, !last, sid) != 0) { vf_incon("open failed"); return; } mx_conn_run(&k, NULL, NULL, 300);
+        if (!mx_conn_established(&k)) { vf_incon("honest handshake failed for %s/%s", mx_vername[m->ver], m->name); honestOk = 0;
+            /* TLS 1.3: what was negotiated is read from the attacked connection's wire, so the deviations can be judged all the same (a receiver that refuses the legal sequence may well accept an illegal one) */
+            if (m->ver != MX_TLS13 || !last) { mx_conn_close(&k); return; } }
         if (round == 0 && m->resumed) collect_pool(&k);    /* priming (full) handshake: Certificate, ServerKeyExchange, ... stay available for injection into the resumed one */
-        if (round == (m->resumed ? 1 : 0)) { unit_t keep[64]; int nkeep = npool; memcpy(keep, pool, sizeof keep); npool = 0; collect_pool(&k);
-            for (int i = 0; i < nkeep; i++) { if (!pool_get(keep[i].type) && npool < 64) pool[npool++] = keep[i]; else free(keep[i].body); } resumedActually = matrixSslIsResumedSession(k.s.ssl) ? 1 : 0; if (m->ver == MX_TLS13) resumedActually = k.s.ssl->sec.tls13UsingPsk ? 1 : 0; ticketNeg = m->ticket; }
+        if (last) { unit_t keep[64]; int nkeep = npool; memcpy(keep, pool, sizeof keep); npool = 0; collect_pool(&k);
+            for (int i = 0; i < nkeep; i++) { if (!pool_get(keep[i].type) && npool < 64) pool[npool++] = keep[i]; else free(keep[i].body); } resumedActually = matrixSslIsResumedSession(k.s.ssl) ? 1 : 0; if (m->ver == MX_TLS13) resumedActually = k.s.ssl->sec.tls13UsingPsk ? 1 : 0; }
         mx_conn_close(&k); }
-    if (m->resumed && !resumedActually) vf_incon("mode %s/%s did not resume", mx_vername[m->ver], m->name);
+    if (honestOk && expect_resumed(m) != resumedActually) vf_incon("mode %s/%s: resumption expected %d, seen %d", mx_vername[m->ver], m->name, expect_resumed(m), resumedActually);
     matrixSslDeleteSessionId(sid); matrixSslNewSessionId(&sid, NULL);
-    if (m->resumed) { if (mx_conn_open(&k, &cfg, sid) != 0) return; mx_conn_run(&k, NULL, NULL, 300); mx_conn_close(&k); }
-    if (mx_conn_open(&k, &cfg, sid) != 0) return;
+    if (m->resumed) { if (mode_open(&k, m, 1, sid) != 0) return; mx_conn_run(&k, NULL, NULL, 300); mx_conn_close(&k); }
+    if (mode_open(&k, m, 0, sid) != 0) return;
     int d = role == MX_SERVER ? 0 : 1, flightNo = 0, gstate = 0;
     for (int i = 0; i < ntr; i++) free(tr[i].body); ntr = 0;
     for (int iter = 0; iter < 40; iter++) {
         mx_conn_collect(&k);
         int pend0 = k.qlen[0] - k.qoff[0], pend1 = k.qlen[1] - k.qoff[1];
         if (!pend0 && !pend1) break;
+        if (getenv("C06_TRACE")) fprintf(stderr, "[%s/%s role %d] iter %d pend c->s %d s->c %d, complete c=%d s=%d dead c=%d s=%d\n", mx_vername[m->ver], m->name, role, iter, pend0, pend1, matrixSslHandshakeIsComplete(k.c.ssl), matrixSslHandshakeIsComplete(k.s.ssl), k.c.dead, k.s.dead);
         /* the flight travelling towards the sender of the attacked direction: part of the transcript both sides share */
-        if (!k.dtls && m->ver != MX_TLS13 && (d == 0 ? pend1 : pend0) > 0) { int od = !d; unit_t v[24]; int nv = split_flight(&k, od == 0 ? &k.s : &k.c, od == 0 ? &k.c : &k.s, k.q[od] + k.qoff[od], k.qlen[od] - k.qoff[od], v, 24);
-            for (int i = 0; i < nv; i++) { if (v[i].kind == U_HS && v[i].type != 0 && ntr < 64) tr[ntr++] = v[i]; else free(v[i].body); } }
+        if (!k.dtls && (m->ver != MX_TLS13 || role == MX_SERVER) && (d == 0 ? pend1 : pend0) > 0) { int od = !d; unit_t v[24]; int nv = split_flight(&k, od == 0 ? &k.s : &k.c, od == 0 ? &k.c : &k.s, k.q[od] + k.qoff[od], k.qlen[od] - k.qoff[od], v, 24);
+            for (int i = 0; i < nv; i++) {
+                if (m->ver == MX_TLS13 && role == MX_SERVER && v[i].type == 8) { earlyAccepted = ee_has_ext(v[i].body, v[i].len, 42); if (earlyAccepted != m->early) vf_incon("mode %s: early data accepted %d, expected %d", m->name, earlyAccepted, m->early); }
+                if (m->ver != MX_TLS13 && v[i].kind == U_HS && v[i].type != 0 && ntr < 64) tr[ntr++] = v[i]; else free(v[i].body); } }
+        /* TLS 1.3: PSK accepted <=> the ServerHello carries pre_shared_key */
+        if (m->ver == MX_TLS13) { const unsigned char *sh; int shl, sawHrr; if (wire_server_hello(&k, &sh, &shl, &sawHrr)) { int r13 = sh_has_ext(sh, shl, 4, 41);
+            if (r13 != resumedActually && honestOk) vf_incon("mode %s: ServerHello pre_shared_key %d but the honest run's server used a PSK %d", m->name, r13, resumedActually);
+            resumedActually = r13; if (sawHrr != m->hrr) vf_incon("mode %s: HelloRetryRequest seen %d, expected %d", m->name, sawHrr, m->hrr); } }
         if ((d == 0 ? pend0 : pend1) > 0) {
             mx_ep *T = role == MX_SERVER ? &k.s : &k.c;
             if (!matrixSslHandshakeIsComplete(T->ssl)) {
                 int clientSentCert = m->clientAuth;   /* the honest client presents its certificate when asked */
-                at_flight(&k, m, role, flightNo, gstate, resumedActually, clientSentCert, ticketNeg);
+                at_flight(&k, m, role, flightNo, gstate, resumedActually, clientSentCert, ticketNeg, earlyAccepted);
                 /* advance the reference state over the honest flight */
                 unit_t u[24]; mx_ep *P = role == MX_SERVER ? &k.c : &k.s; int nu = split_flight(&k, T, P, k.q[d] + k.qoff[d], k.qlen[d] - k.qoff[d], u, 24);
-                gctx_t g = { m, role, resumedActually, clientSentCert, ticketNeg };
-                int bad = 0; for (int i = 0; i < nu; i++) { int ns = bad ? -1 : g_next(&g, gstate, u[i].type); if (ns < 0 && !bad) { bad = 1; if (!k.dtls) vf_violation("c06:harness:grammar-rejects-honest-flight", m->name, "reference grammar rejects honest message %s in state %d (%s/%s role %d)", tname(u[i].type), gstate, mx_vername[m->ver], m->name, role); } if (!bad) gstate = ns; if (!k.dtls && m->ver != MX_TLS13 && u[i].kind == U_HS && u[i].type != 0 && ntr < 64) tr[ntr++] = u[i]; else free(u[i].body); }
+                gctx_t g = { m, role, resumedActually, clientSentCert, ticketNeg, earlyAccepted };
+                int bad = 0; for (int i = 0; i < nu; i++) {
+                    if (role == MX_CLIENT && u[i].type == 2 && u[i].kind == U_HS && !k.dtls) { if (m->ver == MX_TLS13) g.resumedActually = resumedActually = sh_has_ext(u[i].body, u[i].len, 4, 41); else g.ticketNegotiated = ticketNeg = sh_has_ext(u[i].body, u[i].len, 4, 35); }
+                    int ns = bad ? -1 : g_next(&g, gstate, u[i].type); if (ns < 0 && !bad) { bad = 1; if (!k.dtls) vf_violation("c06:harness:grammar-rejects-honest-flight", m->name, "reference grammar rejects honest message %s in state %d (%s/%s role %d)", tname(u[i].type), gstate, mx_vername[m->ver], m->name, role); } if (!bad) gstate = ns; if (!k.dtls && m->ver != MX_TLS13 && u[i].kind == U_HS && u[i].type != 0 && ntr < 64) tr[ntr++] = u[i]; else free(u[i].body); }
                 flightNo++;
             }
         }
-        /* deliver everything pending honestly */
-        while (mx_conn_step(&k, pend0 ? 0 : 1) >= 0) { if ((k.qlen[0] - k.qoff[0]) == 0 && (k.qlen[1] - k.qoff[1]) == 0) break; }
+        /* deliver honestly what was pending at the top of this iteration - not the answer collected while a flight of several records (ClientHello + 0-RTT data) is being delivered */
+        { int target[2] = { k.qlen[0], k.qlen[1] }; for (int dd = 0; dd < 2; dd++) while (k.qoff[dd] < target[dd] && mx_conn_step(&k, dd) == dd) ; }
     }
-    if (vf_shard == 0) { vf_stat("modes", 1); vf_stat("flights_attacked", flightNo); }
+    if (grp_rank == 0) { vf_stat("modes", 1); vf_stat("flights_attacked", flightNo); }
+    if (m->offer == OF_TKT_NOECHO && role == MX_CLIENT && ticketNeg) vf_incon("mode %s: the server echoed the session_ticket extension", m->name);
     mx_conn_close(&k); matrixSslDeleteSessionId(sid);
     for (int i = 0; i < npool; i++) free(pool[i].body); npool = 0;
 }
 
 int main(int argc, char **argv)
 {
-    vf_init(argc, argv); mx_global_init(); mx_keys_load(); build_modes();
-    for (int i = 0; i < nmodes; i++) for (int role = 0; role < 2; role++) { mx_entropy_seed(vf_seed * 977 + i * 2 + role); run_mode(&modes[i], role); }
-    mx_keys_free(); matrixSslClose(); vf_flush();
+    vf_init(argc, argv); mx_global_init(); mx_keys_load(); own_keys_load(); build_modes();
+    grp_init(); int pair = 0;
+    for (int i = 0; i < nmodes; i++) for (int role = 0; role < 2; role++) { if (!vf_thorough && !vf_case && !(modes[i].quick & (1 << role))) continue; if ((pair++) % grp_n != grp_of_shard) continue; mx_entropy_seed(vf_seed * 977 + i * 2 + role); run_mode(&modes[i], role); }
+    own_keys_free(); mx_keys_free(); matrixSslClose(); vf_flush();
     return 0;
 }
